@@ -16,7 +16,8 @@ REQUIRED_THEOREMS = ['Properties.C01.rq_executed_logdet', 'Properties.C01.quad_e
                      'Properties.C01.sum_logdet_eq_log_abs_det', 'Properties.C01.composite_logabsdet_adds', 'Properties.C01.lu_logabsdet', 'Properties.C01.linear_bin_logdet', 'Properties.C01.rq_program_logdet', 'Properties.C01.rq_program_inverse_logdet', 'Properties.C01.cubic_program_logdet', 'Properties.C01.quad_program_logdet', 'Properties.C01.exec_coupling_ld_is_channel_sum', 'Properties.C01.exec_coupling_ld_leftfold', 'Properties.C01.tanh_executed_logdet', 'Properties.C01.exec_autoregressive_row_logdet', 'Properties.C01.rq_tails_program_logdet', 'Properties.C01.exec_made_rq_tails_row_logdet', 'Properties.C01.linear_program_logdet', 'Properties.C01.exec_coupling_row_abs_det', 
                      'Properties.C01.exp_executed_logdet', 'Properties.C01.sigmoid_executed_logdet', 'Properties.C01.sigmoid_threshold_counterexample', 'Properties.C01.leakyRelu_executed_logdet', 'Properties.C01.nonlin_layer_row_logdet', 'Properties.C01.conv1x1_executed_logdet', 'Properties.C01.actnorm_image_executed_logdet', 'Properties.C01.batchnorm_eval_executed_logdet', 'Properties.C01.permutation_executed_is_reindex', 'Properties.C01.squeeze_executed_is_reindex', 'Properties.C01.logTanh_kink_at_cut',
     "Properties.C01.lu_logdet_is_log_abs_det_fderiv", "Properties.C01.lu_logdet_is_log_abs_det_fderiv_inverse", "Properties.C01.qr_logdet_is_log_abs_det_fderiv", "Properties.C01.qr_logdet_is_log_abs_det_fderiv_inverse", "Properties.C01.svd_logdet_is_log_abs_det_fderiv", "Properties.C01.svd_logdet_is_log_abs_det_fderiv_inverse", "Properties.C01.hh_logdet_is_log_abs_det_fderiv", "Properties.C01.hh_logdet_is_log_abs_det_fderiv_inverse", "Properties.C01.naive_forward_is_affine_fderiv", "Properties.C01.linear_pass_entry", "Properties.C01.coupling_quadratic_logdet_is_jacobian", "Properties.C01.coupling_cubic_logdet_is_jacobian", "Properties.C01.coupling_linear_logdet_is_jacobian", "Properties.C01.ar_quadratic_logdet_is_jacobian", "Properties.C01.ar_cubic_logdet_is_jacobian", "Properties.C01.ar_linear_logdet_is_jacobian", "Properties.C01.coupling_quadratic_tails_logdet_is_jacobian", "Properties.C01.coupling_cubic_tails_logdet_is_jacobian", "Properties.C01.coupling_linear_tails_logdet_is_jacobian", "Properties.C01.ar_quadratic_tails_logdet_is_jacobian", "Properties.C01.ar_cubic_tails_logdet_is_jacobian", "Properties.C01.ar_linear_tails_logdet_is_jacobian", "Properties.C01.coupling_linear_inverse_logdet_is_jacobian",
-    "Properties.C01.naive_logdet_is_log_abs_det_fderiv", "Properties.C01.naive_logdet_is_log_abs_det_fderiv_inverse", "Properties.C01.naive_inverse_row_is_affine",]
+    "Properties.C01.naive_logdet_is_log_abs_det_fderiv", "Properties.C01.naive_logdet_is_log_abs_det_fderiv_inverse", "Properties.C01.naive_inverse_row_is_affine",
+    "Properties.C01.coupling_rq_logdet_is_jacobian", "Properties.C01.coupling_rq_inverse_logdet_is_jacobian", "Properties.C01.coupling_rq_tails_logdet_is_jacobian", "Properties.C01.coupling_rq_tails_inverse_logdet_is_jacobian", "Properties.C01.coupling_quadratic_inverse_logdet_is_jacobian", "Properties.C01.coupling_cubic_inverse_logdet_is_jacobian", "Properties.C01.quad_yk_facts",]
 RULE = ("registry of transform configurations (element-wise non-linearities, Piecewise*CDF, coupling layers with 2-D/image inputs, numeric "
         "masks, ResidualNet/ConvResidualNet/plain conditioners, context on/off, masked autoregressive transforms) x parameter regimes "
         "(fresh, zeros, N(0,.5) perturbed, wide) x batches of in-domain inputs incl. tail-bound atoms; the model is fed the recorded "
